@@ -19,24 +19,55 @@ def ao1(facts, rep, body_path, rule='AO-1', first=2, second=3, names=('x', 'y'),
         return
     rep.analysed_body(b)
     roots = b.param_roots()
+
+    def closure_arg_roots(cb, pl):
+        """roots (parameters of the enclosing function) of a symbol passed inside a closure: the symbol must be one captured
+        variable; its provenance is that of the operand captured where the closure is built"""
+        e = fmt(strip(cb.expr_operand({'c': pl}, inline_user=True)))
+        ups = re.findall(r'\^(\w+)', e)
+        if len(set(ups)) != 1:
+            return None
+        names_ = [u.get('name') for u in (cb.raw.get('upvars') or [])]
+        if ups[0] not in names_:
+            return None
+        k = names_.index(ups[0])
+        for bb_ in range(b.n):
+            for st in b.stmts(bb_):
+                if st['k'] == 'assign' and st['r'].get('k') == 'agg' and st['r'].get('ak') == 'closure' and \
+                        st['r'].get('closure') == cb.path and k < len(st['r']['ops']):
+                    o = st['r']['ops'][k]
+                    q = o.get('m') or o.get('c')
+                    return roots[q['l']] if q is not None else None
+        return None
     n = 0
-    for bb, t in b.calls():
-        info = call_info(t)
-        if not info or not info['fn'].endswith('MatchFunc::score') or len(t['args']) != 3:
-            continue
-        n += 1
-        key = '%s|score-argument-order@%d' % (body_path, n)
-        ls = [(a.get('m') or a.get('c')) for a in t['args'][1:]]
-        if any(q is None for q in ls):
-            rep.bad(rule, key, b.loc(bb), 'a literal is passed as a symbol')
-            continue
-        ra, rb = roots[ls[0]['l']] & {first, second}, roots[ls[1]['l']] & {first, second}
-        if ra == {first} and rb == {second}:
-            rep.ok(rule, key, b.loc(bb), 'score(symbol of %s, symbol of %s)' % names)
-        else:
-            rep.bad(rule, key, b.loc(bb), 'MatchFunc::score is called with symbols derived from parameters %s and %s '
-                                          '(expected: first from %s = parameter %d, second from %s = parameter %d)' % (
-                        sorted(ra), sorted(rb), names[0], first, names[1], second))
+    for fb in facts.family(b):
+        if fb is not b:
+            rep.analysed_body(fb)
+        for bb, t in fb.calls():
+            info = call_info(t)
+            if not info or not info['fn'].endswith('MatchFunc::score') or len(t['args']) != 3:
+                continue
+            n += 1
+            key = '%s|score-argument-order@%d' % (body_path, n)
+            ls = [(a.get('m') or a.get('c')) for a in t['args'][1:]]
+            if any(q is None for q in ls):
+                rep.bad(rule, key, fb.loc(bb), 'a literal is passed as a symbol')
+                continue
+            if fb is b:
+                rs = [roots[ls[0]['l']], roots[ls[1]['l']]]
+            else:
+                rs = [closure_arg_roots(fb, ls[0]), closure_arg_roots(fb, ls[1])]
+                if any(r is None for r in rs):
+                    rep.bad(rule, key, fb.loc(bb), 'the symbols passed inside the closure are not plain captured variables: their '
+                                                   'origin cannot be established')
+                    continue
+            ra, rb = rs[0] & {first, second}, rs[1] & {first, second}
+            if ra == {first} and rb == {second}:
+                rep.ok(rule, key, fb.loc(bb), 'score(symbol of %s, symbol of %s)' % names)
+            else:
+                rep.bad(rule, key, fb.loc(bb), 'MatchFunc::score is called with symbols derived from parameters %s and %s '
+                                               '(expected: first from %s = parameter %d, second from %s = parameter %d)' % (
+                            sorted(ra), sorted(rb), names[0], first, names[1], second))
     rep.floor(rule, 'score call sites in %s' % body_path.rsplit('::', 1)[-1], n, floor)
 
 
